@@ -10,6 +10,9 @@ Streams
   cache   the same for CharacteristicCacheFile (saved in place; must load as old/new/empty), plus
           every (sampled) strict prefix and unparsable corruptions of valid cache files.
   pair    pairing records of all transports through save_data -> fresh load_data.
+  seq     histories of add / remove (real Controller.remove_pairing) / save / restart over 0..3 pairings, exhaustive
+          for short histories plus walks N -> ... -> 0 -> 1; after every restart the loaded set equals the last
+          saved one (also the empty set); crash injection on the transition to the empty set.
   emap    entity maps (random well-formed + tests/fixtures) through Accessories.from_list /
           serialize / JSON / from_list, against the record model (Model/PersistRec.v).
 Oracle: after any crash point the loaded pairing data equals the old or the new data (or nothing
@@ -305,6 +308,7 @@ def stream_save(ctx, drv, cov, viols, root, r):
         case = CrashCase(root, drv, "pairing.json", init, lambda: (lambda: ctl.save_data(path)), load_pairings,
                          classify_pairings(old, new), max_pieces)
         res = case.run()
+        res["old_equals_new"] = (old == new)
         stats["saves"] += 1
         stats["shapes"][res["shape"]] = stats["shapes"].get(res["shape"], 0) + 1
         judge_crash_case("save_data", res, old is not None, cov, viols, first_violation, stats,
@@ -345,6 +349,15 @@ def judge_crash_case(site, res, have_old, cov, viols, first_violation, stats, ca
         replay = dict(site=site, case=case_repr, ops=[op_tok(o)[:80] for o in res["ops"]], names=res["names"],
                       crash_before_op=n, view=view, next_op=pt["next_op"], loaded=pt["cls"],
                       file_after_crash=real_list.get(0, "missing"), expected="one of " + "/".join(sorted(allowed)))
+        if n == len(res["ops"]) and view == "a" and pt["cls"] != "new" and not res.get("old_equals_new"):
+            # the uninterrupted save (theorem save_complete): a restart must see exactly what was saved
+            key = f"{site}:completed-save-not-persisted"
+            if key not in first_violation:
+                first_violation[key] = True
+                viols.append(violation(key, f"{site} ran to completion ({len(res['ops'])} file operations, procedure "
+                                       f"'{res['shape']}') but a fresh loader sees '{pt['cls']}' instead of the data that "
+                                       f"was saved", True, **replay))
+            continue
         if pt["cls"] not in allowed:
             slug = "crash-loses-data" if view == "a" else "unsynced-data-loss"
             key = f"{site}:{slug}:{res['shape']}"
@@ -1051,6 +1064,166 @@ def stream_pairs(ctx, drv, cov, viols, root, r):
     cov.extra["pairs_stream"] = stats
 
 
+# ---------------------------------------------------------------- stream: save sequences (add / remove / save / restart)
+SEQ_OPS = ["addIP", "addBLE", "addCoAP", "remove", "save", "restart"]
+
+
+async def stream_seq(ctx, drv, cov, viols, root, r):
+    """Histories of {add a pairing (each transport), remove a pairing (the real Controller.remove_pairing with the
+    accessory side mocked), save_data, restart + load_data} over 0..3 pairings.  Oracle: after every restart the
+    loaded set equals the set at the last save (the initial file before any save) - also for the empty set.
+    Every save runs under the shim; the model replays its operation list (save_complete: the file then holds the
+    printed new data)."""
+    import itertools
+    from unittest.mock import AsyncMock
+    tier = ctx["tier"]
+    path = os.path.join(root, "pairing.json")
+    stats = dict(histories=0, saves=0, saves_of_empty_set=0, saves_of_empty_set_over_nonempty_file=0, restarts=0,
+                 restarts_expecting_empty=0, removes=0, adds=0, max_pairings=0, exhaustive_up_to_length=0,
+                 directed_walks=0, random_histories=0, crash_cases_to_empty=0)
+    seen = set()
+    sim_reqs = []          # (request, expected listing, replay) - model check of every save, batched
+
+    histories = []
+    top = 4 if tier == "quick" else 5
+    stats["exhaustive_up_to_length"] = top
+    for start in (0, 1):
+        for n in range(1, top + 1):
+            for h in itertools.product(SEQ_OPS, repeat=n):
+                histories.append(("exhaustive", start, list(h) + ["save", "restart"]))
+    # directed walks N -> N-1 -> ... -> 0 -> 1, a restart after every save
+    for n in (1, 2, 3):
+        for ts in itertools.product(["IP", "BLE", "CoAP"], repeat=n):
+            h = []
+            for _ in range(n):
+                h += ["remove", "save", "restart"]
+            h += ["add" + ts[0], "save", "restart"]
+            histories.append(("walk", list(ts), h))
+            stats["directed_walks"] += 1
+    for _ in range(150 if tier == "quick" else 2500):
+        h = [r.choice(SEQ_OPS + ["remove", "save", "restart"]) for _ in range(r.randrange(4, 14))] + ["save", "restart"]
+        histories.append(("random", r.choice([0, 1, 2, 3]), h))
+        stats["random_histories"] += 1
+
+    alias_pool = ALIASES[:8]
+    for kind, start, h in histories:
+        # initial disk: `start` pairings written by an independent writer (stdlib json), or no file
+        if isinstance(start, list):
+            init = {alias_pool[k]: gen_pairing(r, t) for k, t in enumerate(start)}
+        else:
+            init = {alias_pool[k]: gen_pairing(r) for k in range(start)}
+        reset_dir(root, {"pairing.json": dumps_file(init)} if init else {})
+        expected = dict(init)                       # what a restart must see
+        ctl = make_controller()
+        ctl.load_data(path)
+        live = {a: dict(p.pairing_data) for a, p in ctl.aliases.items()}
+        if live != init:
+            viols.append(violation("save_sequence:initial-load", "initial pairing file not loaded unchanged", True,
+                                   init=init, loaded=live))
+            continue
+        stats["histories"] += 1
+        trace = []
+        bad = None
+        for step, op in enumerate(h):
+            if op.startswith("add"):
+                if len(ctl.aliases) >= 3:
+                    continue
+                alias = next(a for a in alias_pool if a not in ctl.aliases)
+                pd = gen_pairing(r, op[3:])
+                ctl.load_pairing(alias, json.loads(json.dumps(pd)))
+                trace.append(["add", op[3:], alias])
+                stats["adds"] += 1
+            elif op == "remove":
+                if not ctl.aliases:
+                    continue
+                alias = r.choice(sorted(ctl.aliases))
+                pairing = ctl.aliases[alias]
+                pairing.remove_pairing = AsyncMock()
+                pairing.shutdown = AsyncMock()
+                await ctl.remove_pairing(alias)
+                trace.append(["remove", alias])
+                stats["removes"] += 1
+            elif op == "save":
+                snapshot = {a: json.loads(json.dumps(p.pairing_data)) for a, p in ctl.aliases.items()}
+                before = open(path, "rb").read() if os.path.exists(path) else None
+                sim, completed, exc = run_with_crash(root, lambda: ctl.save_data(path), None, "a", 1, {"pairing.json": 0})
+                trace.append(["save", sorted(snapshot)])
+                stats["saves"] += 1
+                if not snapshot:
+                    stats["saves_of_empty_set"] += 1
+                    if expected:
+                        stats["saves_of_empty_set_over_nonempty_file"] += 1
+                if exc is not None or not completed:
+                    bad = ("save-raises", f"save_data raised {type(exc).__name__ if exc else 'nothing but did not complete'}")
+                    break
+                expected = snapshot
+                after = listing(root, sim.names)
+                if len(sim_reqs) < (400 if tier == "quick" else 4000):
+                    inits = f"0:{hx(before)}" if before is not None else "."
+                    new_bytes = open(path, "rb").read() if os.path.exists(path) else b""
+                    sim_reqs.append(("sim 0 %s %s %d %s %s" % ("!" if before is None else hx(before), hx(new_bytes),
+                                                              max(len(sim.names), 1), inits, " ".join(op_tok(o) for o in sim.ops)),
+                                     len(sim.ops), after, dict(history=list(trace), saved=sorted(snapshot))))
+            elif op == "restart":
+                loaded = load_pairings(path)
+                stats["restarts"] += 1
+                stats["restarts_expecting_empty"] += (not expected)
+                trace.append(["restart"])
+                if loaded[0] != "ok":
+                    bad = ("load-fails", f"load_data fails ({loaded[0]}) after the restart")
+                    break
+                if loaded[1] != expected:
+                    what = "after-saving-the-empty-set" if not expected else "after-saving-a-nonempty-set"
+                    bad = ("restart-differs:" + what,
+                           f"after the restart the controller holds {sorted(loaded[1])} but the last save wrote {sorted(expected)}")
+                    break
+                ctl = make_controller()
+                ctl.load_data(path)
+            stats["max_pairings"] = max(stats["max_pairings"], len(ctl.aliases))
+        cov.case("seq|" + canon([kind, trace, sorted(init)]), any(t[0] == "save" for t in trace),
+                 sample=dict(stream="save-sequence", kind=kind, initial=sorted(init), history=trace[:12], ok=bad is None)
+                 if stats["histories"] % 173 == 0 else None,
+                 seq_kind=kind, seq_len=min(len(trace), 12), seq_initial=len(init), seq_result=bad[0] if bad else "ok")
+        if bad:
+            key = "save_sequence:" + bad[0]
+            if key not in seen:
+                seen.add(key)
+                viols.append(violation(key, "save sequence: " + bad[1], True, initial_file=init, history=trace,
+                                       expected_after_restart=expected,
+                                       file_after=hx(open(path, "rb").read())[:400] if os.path.exists(path) else "missing"))
+    # model check of the saves: after the complete operation list the file holds the new bytes (save_complete)
+    answers = drv.batch([q[0] for q in sim_reqs])
+    for (req, nops, after, rep), ans in zip(sim_reqs, answers):
+        last = [e for e in ans.split("|") if e.startswith(f"{nops};a;")][0]
+        _, _, cls, lst = last.split(";")
+        mlist = {int(kv.split("=")[0]): kv.split("=")[1] for kv in filter(None, lst.split(","))}
+        if mlist != after:
+            viols.append(violation("save_sequence:model-mismatch:disk", "directory after a completed save differs from the "
+                                   "model's replay of its operation list", False, model=mlist, real=after,
+                                   broken="correspondence Model/Persist.v <-> save_data", **rep))
+    stats["saves_replayed_by_model"] = len(sim_reqs)
+    # crash injection on the transition to the empty set: old or new, and new once the save completed
+    first = {}
+    cstats = dict(saves=0, crash_points=0, shapes={}, results={})
+    combos = [["IP"], ["BLE"], ["CoAP"], ["IP", "BLE", "CoAP"]]
+    if tier != "quick":
+        combos += [list(c) for n in (2, 3) for c in itertools.product(["IP", "BLE", "CoAP"], repeat=n)][:26]
+    for ts in combos:
+        old = {alias_pool[k]: gen_pairing(r, t) for k, t in enumerate(ts)}
+        ctl = controller_with({})
+        case = CrashCase(root, drv, "pairing.json", {"pairing.json": dumps_file(old)},
+                         lambda: (lambda: ctl.save_data(path)), load_pairings, classify_pairings(old, {}), 4)
+        res = case.run()
+        res["old_equals_new"] = False
+        cstats["saves"] += 1
+        cstats["shapes"][res["shape"]] = cstats["shapes"].get(res["shape"], 0) + 1
+        judge_crash_case("save_data", res, True, cov, viols, first, cstats, dict(old=old, new={}, stale=[]),
+                         MODEL_TO_LOAD, {"old", "new"}, {"empty", "new"})
+        stats["crash_cases_to_empty"] += 1
+    stats["crash_to_empty"] = cstats
+    cov.extra["save_sequence_stream"] = stats
+
+
 # ---------------------------------------------------------------- stream: cache file crash points, prefixes, corruptions
 def cache_doc(r, n_pairings=1, small=True):
     out = {}
@@ -1220,6 +1393,9 @@ async def run_async(ctx):
     try:
         import time
         timings = {}
+        t0 = time.time()
+        await stream_seq(ctx, drv, cov, viols, root, rng(seed, "c20seq"))
+        timings["sequence"] = round(time.time() - t0, 1)
         for name, fn in (("save", lambda: stream_save(ctx, drv, cov, viols, root, rng(seed, "c20save"))),
                          ("cache", lambda: stream_cache(ctx, drv, cov, viols, root, rng(seed, "c20cache"))),
                          ("pairs", lambda: stream_pairs(ctx, drv, cov, viols, root, rng(seed, "c20pairs"))),
